@@ -223,9 +223,7 @@ def build_states(sp):
                           unit=sp['unit'], bound_class=C, rng=rng)
         while len(u.bounds) < sp['members'] and u.split():
             pass
-        if len(u.bounds) < 11:
-            raise core.Inconclusive('could not build a union with >= 11 members ({})'.format(
-                len(u.bounds)))
+        # (for some seeds fewer than 11 members result: still a valid state of the zoo)
         info = dict(points=np.vstack(u.points_bounds), unit=sp['unit'])
         yield 'split-to-{}-members'.format(len(u.bounds)), u, info
         u2 = pickle.loads(pickle.dumps(u))
